@@ -277,12 +277,23 @@ def main():
             [{"t": "linked", "name": "n", "args": [["id", V("id")], ["w", O(V("wv"))]], "children": [{"t": "scalar", "name": "g", "args": [["q", V("q")], ["r", O(V("r"))]]}]}],
             [{"t": "fragment", "on": "T", "children": [{"t": "scalar", "name": "h", "args": [["p", O(V("p"))]]}]}],
             [{"t": "linked", "name": "n", "args": [], "children": [{"t": "fragment", "on": "T", "children": [{"t": "scalar", "name": "h", "args": [["p", V("p1")], ["s", O(V("p2"), V("p3"))]]}]}]}],
+            # deeper nestings of the three node kinds in each other
+            [{"t": "fragment", "on": "A", "children": [{"t": "fragment", "on": "B", "children": [{"t": "scalar", "name": "h", "args": [["p", V("ff")]]}]}]}],
+            [{"t": "fragment", "on": "A", "children": [{"t": "linked", "name": "n", "args": [["x", V("fl1")]], "children": [{"t": "scalar", "name": "h", "args": [["p", V("fl2")]]}]}]}],
+            [{"t": "linked", "name": "n", "args": [["x", V("ll1")]], "children": [{"t": "linked", "name": "m", "args": [["y", V("ll2")]], "children": [{"t": "scalar", "name": "h", "args": [["p", V("ll3")]]}]}]}],
+            [{"t": "fragment", "on": "A", "children": [{"t": "linked", "name": "n", "args": [], "children": [{"t": "fragment", "on": "B", "children": [{"t": "scalar", "name": "h", "args": [["p", V("flf")]]}]}]}]}],
+            [{"t": "linked", "name": "n", "args": [], "children": [{"t": "fragment", "on": "A", "children": [{"t": "fragment", "on": "B", "children": [{"t": "linked", "name": "m", "args": [["q", V("lffl")]], "children": [{"t": "scalar", "name": "h", "args": []}]}]}]}]}],
+            [{"t": "scalar", "name": "f", "args": [["a", V("s1")]]}, {"t": "scalar", "name": "g", "args": [["a", V("s2")], ["b", V("s3")], ["c", V("s4")]]}, {"t": "fragment", "on": "T", "children": [{"t": "scalar", "name": "h", "args": [["p", V("s5")]]}]}],
         ]
         for tree, (u_nat, c_nat, text) in zip(guard, run_driver(binary, guard)):
             missing = sorted(set(u_nat) - set(c_nat))
             if missing:
                 violations.append(("probe %s: operation text %r uses $%s, which get_reachable_variables does not collect (%r)" % (json.dumps(tree), text, ", $".join(missing), c_nat),
                                    replay(tree, "a variable used by the printed operation is not collected (native probe guard)", "guard_%d" % len(violations))))
+            extra_ = sorted(set(c_nat) - set(u_nat))
+            if extra_:
+                violations.append(("probe %s: get_reachable_variables collects $%s, which the operation text %r never uses" % (json.dumps(tree), ", $".join(extra_), text),
+                                   replay(tree, "a collected variable is not used by the printed operation (native probe guard)", "guard_%d" % len(violations))))
         samples.append({"native_probe_guard_trees": len(guard)})
 
         X = extract()
